@@ -72,6 +72,8 @@ type thread struct {
 	started bool
 	panicV  any
 	moves   uint64
+	h       uint64 // happens-before hash of the thread's history
+	spawns  uint64
 }
 
 // ThreadInfo describes a thread that was still alive at quiescence.
@@ -117,6 +119,17 @@ type sched struct {
 	diverged    string
 	randHook    func() (int64, bool)
 	mapOrderOn  bool
+
+	hbOn     bool
+	prune    bool
+	objH     map[uintptr]uint64
+	objX     uint64
+	visited  map[stateKey]int16
+	costUsed int
+	pruned   bool
+	nPruned  int
+
+	lastPartner *thread
 }
 
 var s = &sched{}
@@ -171,6 +184,15 @@ func callerSite(skip int) string {
 func (s *sched) spawn(fn func(), site string, parent int) *thread {
 	t := &thread{id: len(s.threads), wake: make(chan struct{}, 1), exited: make(chan struct{}), site: site, parent: parent}
 	t.pend = &pend{kind: opStart, committed: -1, what: "start"}
+	if parent >= 0 && parent < len(s.threads) {
+		pt := s.threads[parent]
+		pt.spawns++
+		t.h = mix(mix(pt.h, 0xC0FFEE), pt.spawns)
+		pt.h = mix(pt.h, 0x5BA3+pt.spawns)
+	} else {
+		s.timerSeq++
+		t.h = mix(mix(s.objH[kClock], 0x71AE), uint64(len(s.threads)))
+	}
 	s.threads = append(s.threads, t)
 	reg := make(chan struct{})
 	go func() {
@@ -207,6 +229,7 @@ type abortSignal struct{}
 
 func (s *sched) threadExit(t *thread) {
 	t.done = true
+	t.h = mix(t.h, 0xE817)
 	t.pend = nil
 	s.byGid.Delete(t.gid)
 	defer close(t.exited)
@@ -407,13 +430,17 @@ func (s *sched) choose(cur *thread) *thread {
 				cost[i] = 1
 			}
 		}
-		idx := s.nextChoice(len(cands), cost, 's')
+		idx, ok := s.nextChoice(len(cands), cost, 's', cur)
+		if !ok {
+			return nil
+		}
 		return cands[idx]
 	}
 }
 
 // nextChoice returns the alternative to take at a choice point with n options.
-func (s *sched) nextChoice(n int, cost []int8, kind byte) int {
+// ok=false means the execution was pruned (state already visited) and has ended.
+func (s *sched) nextChoice(n int, cost []int8, kind byte, cur *thread) (int, bool) {
 	pos := len(s.trace)
 	c := 0
 	if pos < len(s.prefix) {
@@ -422,9 +449,25 @@ func (s *sched) nextChoice(n int, cost []int8, kind byte) int {
 			s.diverged = fmt.Sprintf("replay divergence at choice %d: prefix wants alternative %d but only %d options", pos, c, n)
 			c = 0
 		}
+	} else if s.prune {
+		k := stateKey{g: s.globalKey(), kind: kind, n: n}
+		if cur != nil {
+			k.cur = cur.h
+			if cost[len(cost)-1] == 0 {
+				k.cur = mix(k.cur, 0xF4EE)
+			}
+		}
+		if old, ok := s.visited[k]; ok && int(old) <= s.costUsed {
+			s.pruned = true
+			s.nPruned++
+			s.endExecution()
+			return 0, false
+		}
+		s.visited[k] = int16(s.costUsed)
 	}
+	s.costUsed += int(cost[c])
 	s.trace = append(s.trace, choice{n: n, chosen: c, cost: cost, kind: kind})
-	return c
+	return c, true
 }
 
 // envChoice is a choice made by the environment (select ready set, random draw, map
@@ -437,7 +480,15 @@ func (s *sched) envChoice(n int, altCost int8) int {
 	for i := 1; i < n; i++ {
 		cost[i] = altCost
 	}
-	return s.nextChoice(n, cost, 'e')
+	t := s.cur
+	idx, ok := s.nextChoice(n, cost, 'e', t)
+	if !ok {
+		s.park(me())
+	}
+	if t != nil && s.hbOn {
+		t.h = mix(t.h, 0xE0+uint64(idx))
+	}
+	return idx
 }
 
 func describe(p *pend) string {
@@ -493,6 +544,7 @@ type execResult struct {
 	abortMsg string
 	diverged string
 	leaked   []ThreadInfo
+	pruned   bool
 }
 
 var watchdog = 120 * time.Second
@@ -516,6 +568,10 @@ func (s *sched) runOnce(r *Run, body func(*Run), prefix []int) execResult {
 	s.abortMsg = ""
 	s.diverged = ""
 	s.randHook = nil
+	s.objH = map[uintptr]uint64{}
+	s.objX = 0
+	s.costUsed = 0
+	s.pruned = false
 	resetRand()
 	s.active.Store(true)
 
@@ -530,7 +586,7 @@ func (s *sched) runOnce(r *Run, body func(*Run), prefix []int) execResult {
 		fmt.Fprintf(os.Stderr, "vrt: watchdog: execution did not finish in %v (a managed thread is blocked in a real primitive?)\nchoices=%v\n%s\n", watchdog, s.choices(), buf[:n])
 		os.Exit(3)
 	}
-	res := execResult{trace: s.trace, steps: s.steps, abortMsg: s.abortMsg, diverged: s.diverged}
+	res := execResult{trace: s.trace, steps: s.steps, abortMsg: s.abortMsg, diverged: s.diverged, pruned: s.pruned}
 	for _, t := range s.threads {
 		if !t.done && t.id != 0 {
 			res.leaked = append(res.leaked, ThreadInfo{ID: t.id, Site: t.site, Blocked: describe(t.pend), Parent: t.parent})
@@ -542,6 +598,9 @@ func (s *sched) runOnce(r *Run, body func(*Run), prefix []int) execResult {
 	// end-of-execution oracles run in the controller goroutine: nothing else runs
 	s.active.Store(false)
 	for _, f := range r.atEnd {
+		if s.pruned {
+			break
+		}
 		func() {
 			defer func() {
 				if e := recover(); e != nil {
@@ -649,6 +708,9 @@ func Settle() {
 		return
 	}
 	s.point(t, &pend{kind: opSettle, what: "settle"})
+	if s.hbOn {
+		t.h = mix(t.h, s.globalKey())
+	}
 }
 
 // BlockUntil parks the caller until pred() is true (evaluated at scheduling points).
@@ -661,6 +723,9 @@ func BlockUntil(what string, pred func() bool) {
 		return
 	}
 	s.point(t, &pend{kind: opBlock, pred: pred, what: what})
+	if s.hbOn {
+		t.h = mix(t.h, s.globalKey())
+	}
 }
 
 // Choose is a harness-level environment choice among n alternatives (0 = default).
